@@ -638,6 +638,26 @@ func (p *Program) matchesBranchGap(jump bool) bool {
 		}
 		return false
 	}
+	var allExit func(ss []Stmt) (exits, viaPanic bool)
+	allExit = func(ss []Stmt) (bool, bool) {
+		if len(ss) == 0 {
+			return false, false
+		}
+		last := ss[len(ss)-1]
+		switch last.K {
+		case "panic":
+			return true, true
+		case "return":
+			return true, false
+		case "if", "iflet":
+			if last.E {
+				e1, p1 := allExit(last.A)
+				e2, p2 := allExit(last.B)
+				return e1 && e2, p1 || p2
+			}
+		}
+		return false, false
+	}
 	endsInJump := func(ss []Stmt) bool {
 		if len(ss) == 0 {
 			return false
@@ -645,7 +665,9 @@ func (p *Program) matchesBranchGap(jump bool) bool {
 		if jump {
 			return ss[len(ss)-1].K == "break" || ss[len(ss)-1].K == "continue"
 		}
-		return ss[len(ss)-1].K == "panic"
+		// every path of the branch leaves the function and at least one does so by halting
+		exits, viaPanic := allExit(ss)
+		return exits && viaPanic
 	}
 	var walk func(ss []Stmt, loopVars map[string]bool, inLoop bool)
 	walk = func(ss []Stmt, loopVars map[string]bool, inLoop bool) {
@@ -676,6 +698,10 @@ func (p *Program) matchesBranchGap(jump bool) bool {
 				if jump {
 					walk(s.A, map[string]bool{}, true)
 				} else {
+					// the same for a loop body that consumes an outer resource and halts
+					if endsInJump(s.A) && consumes(s.A, local) {
+						found = true
+					}
 					walk(s.A, local, true)
 				}
 			case "fun":
@@ -685,4 +711,133 @@ func (p *Program) matchesBranchGap(jump bool) bool {
 	}
 	walk(p.Body, map[string]bool{}, false)
 	return found
+}
+
+// matchesNestedReturnGap is the predicate of finding FS27: one branch of an if/else ends in a nested if/else whose
+// branches all consume an outer resource and return, while the other branch consumes it and continues. The nested merge
+// drops the invalidation ("both returned"), after which the outer merge sees a returning branch *without* invalidation and
+// downgrades the other branch's invalidation to "potential".
+func (p *Program) matchesNestedReturnGap() bool {
+	found := false
+	var allReturn func(ss []Stmt) bool
+	allReturn = func(ss []Stmt) bool {
+		if len(ss) == 0 {
+			return false
+		}
+		last := ss[len(ss)-1]
+		switch last.K {
+		case "return":
+			return true
+		case "if", "iflet":
+			return last.E && allReturn(last.A) && allReturn(last.B)
+		}
+		return false
+	}
+	var consumesAny func(ss []Stmt) bool
+	consumesAny = func(ss []Stmt) bool {
+		for _, s := range ss {
+			switch s.K {
+			case "destroy", "consume", "move", "arr", "iflet":
+				return true
+			}
+			if s.K != "fun" && (consumesAny(s.A) || consumesAny(s.B)) {
+				return true
+			}
+		}
+		return false
+	}
+	nestedReturning := func(ss []Stmt) bool {
+		if len(ss) == 0 {
+			return false
+		}
+		last := ss[len(ss)-1]
+		return (last.K == "if" || last.K == "iflet") && last.E && allReturn(last.A) && allReturn(last.B) && consumesAny([]Stmt{last})
+	}
+	terminated := func(ss []Stmt) bool {
+		if len(ss) == 0 {
+			return false
+		}
+		switch ss[len(ss)-1].K {
+		case "return", "break", "continue", "panic":
+			return true
+		}
+		return allReturn(ss)
+	}
+	var walk func(ss []Stmt)
+	walk = func(ss []Stmt) {
+		for _, s := range ss {
+			if (s.K == "if" || s.K == "iflet") && s.E {
+				if nestedReturning(s.A) && !terminated(s.B) && consumesAny(s.B) || nestedReturning(s.B) && !terminated(s.A) && consumesAny(s.A) {
+					found = true
+				}
+			}
+			walk(s.A)
+			walk(s.B)
+		}
+	}
+	walk(p.Body)
+	return found
+}
+
+// matchesLoopHaltUnsoundness is the predicate of finding FS28 (a soundness gap): a loop body consumes a resource that was
+// declared outside the loop — so a second iteration uses a dead resource — and the program contains a panic. The checker
+// has no second-iteration check; it relies on the "potentially invalidated ⇒ lost at scope end" report, which is suppressed
+// when the scope ends in a halt.
+func (p *Program) matchesLoopHaltUnsoundness() bool {
+	hasPanic, found := false, false
+	var consumes func(ss []Stmt, outer map[string]bool) bool
+	consumes = func(ss []Stmt, outer map[string]bool) bool {
+		for _, s := range ss {
+			switch s.K {
+			case "destroy", "consume":
+				if outer[s.V] {
+					return true
+				}
+			case "move", "arr", "iflet":
+				for _, v := range s.S {
+					if outer[v] {
+						return true
+					}
+				}
+			}
+			if s.K != "fun" && (consumes(s.A, outer) || consumes(s.B, outer)) {
+				return true
+			}
+		}
+		return false
+	}
+	var walk func(ss []Stmt, declared map[string]bool)
+	walk = func(ss []Stmt, declared map[string]bool) {
+		local := map[string]bool{}
+		for k := range declared {
+			local[k] = true
+		}
+		for _, s := range ss {
+			switch s.K {
+			case "panic":
+				hasPanic = true
+			case "new", "move", "arr":
+				local[s.V] = true
+			case "while", "for":
+				if consumes(s.A, local) {
+					found = true
+				}
+			case "fun":
+				walk(s.A, map[string]bool{})
+				continue
+			}
+			if s.K == "iflet" {
+				l2 := map[string]bool{s.V: true}
+				for k := range local {
+					l2[k] = true
+				}
+				walk(s.A, l2)
+			} else {
+				walk(s.A, local)
+			}
+			walk(s.B, local)
+		}
+	}
+	walk(p.Body, map[string]bool{})
+	return found && hasPanic
 }
